@@ -14,6 +14,8 @@ func init() { register("C02", "exploration", checkC02) }
 
 var c02Values = []string{"", "a", "abc", "hello world", "10", "-5", "0", "9223372036854775807", "-9223372036854775808", "3.5", " 7", "007", "1e2", "ab\r\ncd", "\x00\x01", "9223372036854775806", "xyzxyz", "ohmytext", "mynewtext",
 	// values are bytes, not characters: multi-byte UTF-8 and byte sequences that are not UTF-8 at all
+	// short strings over a small alphabet: many different common subsequences of equal length (LCS)
+	"daa", "cdab", "xcc", "axc", "cxaaadac", "axx", "caxa", "acaxacacdxca", "dcacdaaacxxd", "xddcccadxd", "daaxcdcxxa", "dddx", "xaadxaadxdxd", "xdc", "axacdccxxxac", "xdcxdxdxcc", "cccc", "xcd",
 	"h\xc3\xa9llo w\xc3\xb6rld", "\xe2\x82\xac\xe2\x82\xac", "\xff\xfeab\xc3\xa9z", "\xffab\xc3\xa9", "\xfe\xfdab\xc3"}
 
 func c02Gen(rng *rand.Rand, m *model.Model, keys []string) []string {
@@ -165,9 +167,10 @@ func c02Gen(rng *rand.Rand, m *model.Model, keys []string) []string {
 
 func checkC02(r *verdict.Run) {
 	r.Rule = "random sequences of string/counter commands over 4 string keys + one key of each other type + an expiring key + a missing key, arguments from boundary pools (offsets around the current length, boundary integers, near-integers, floats, every SET option subset in random order and case); " +
-		"oracle per step: reply = reference model reply, observable state of every key = model state, error replies leave the state unchanged. distinct = (command+options, prior key class, outcome class)"
+		"plus LCS / LCS LEN / LCS IDX over every ordered pair of 60 (thorough: 160) short strings over a three-letter alphabet; oracle per step: reply = reference model reply, observable state of every key = model state, error replies leave the state unchanged. distinct = (command+options, prior key class, outcome class)"
 	runDiffSequences(r, tierPick(r, 300, 6000), func(rng *rand.Rand) int { return 30 + rng.Intn(50) },
 		[]string{"s0", "s1", "s2", "s3", "kl", "kh", "kset", "ke", "km", "0aaaaaaa", "8aaaaaaa"}, seedCommands(), c02Gen)
+	c02LcsPairs(r)
 }
 
 // runDiffSequences is the common engine of the single-connection differential checks.
@@ -291,4 +294,64 @@ func provenanceStep(rng *rand.Rand, keys []string) []string {
 		args = append(args, pick(rng, []string{"IDLETIME", "FREQ"}), "5")
 	}
 	return args
+}
+
+// c02LcsPairs: the longest common subsequence of every ordered pair of short strings over a small alphabet (the shapes
+// that make the dynamic programme take every kind of step): LCS (a common subsequence of the right length), LCS LEN,
+// LCS IDX (blocks that really match, of the right total length) against the model.
+func c02LcsPairs(r *verdict.Run) {
+	rng := shardRng(r, 4242)
+	var strs []string
+	alpha := "acd"
+	for a := 0; a < 3; a++ {
+		strs = append(strs, string(alpha[a]))
+		for b := 0; b < 3; b++ {
+			strs = append(strs, string(alpha[a])+string(alpha[b]))
+			for c := 0; c < 3; c++ {
+				strs = append(strs, string(alpha[a])+string(alpha[b])+string(alpha[c]))
+			}
+		}
+	}
+	for len(strs) < tierPick(r, 60, 160) {
+		n := 4 + rng.Intn(8)
+		b := make([]byte, n)
+		for i := range b {
+			b[i] = "acdx"[rng.Intn(4)]
+		}
+		strs = append(strs, string(b))
+	}
+	nsh := 16
+	parallel(nsh, 16, func(shard int) {
+		c, err := startChild(false)
+		if err != nil {
+			r.Inconclusive("cannot start child")
+			return
+		}
+		defer c.Stop()
+		d, err := newDiffEnv(r, c, []string{"x", "y"})
+		if err != nil {
+			r.Inconclusive("infra: " + err.Error())
+			return
+		}
+		defer d.close()
+		d.monitor = "lcs"
+		d.noState = true
+		for i := shard; i < len(strs); i += nsh {
+			if _, ok := d.step([]string{"SET", "x", strs[i]}); !ok {
+				return
+			}
+			for _, y := range strs {
+				if _, ok := d.step([]string{"SET", "y", y}); !ok {
+					return
+				}
+				for _, form := range [][]string{{"LCS", "x", "y"}, {"LCS", "x", "y", "LEN"}, {"LCS", "x", "y", "IDX"}, {"LCS", "x", "y", "IDX", "MINMATCHLEN", "2", "WITHMATCHLEN"}} {
+					if _, ok := d.step(form); !ok {
+						return
+					}
+					r.Eval(1)
+				}
+			}
+		}
+		r.Distinct(fmt.Sprintf("lcs-pairs/shard%d", shard))
+	})
 }
